@@ -27,7 +27,7 @@ func (g *gg) pick(label string, opts ...string) string {
 	return rapid.SampledFrom(opts).Draw(g.t, label)
 }
 func (g *gg) int(label string, lo, hi int) int { return rapid.IntRange(lo, hi).Draw(g.t, label) }
-func (g *gg) feat(f string)                  { g.features[f] = true }
+func (g *gg) feat(f string)                    { g.features[f] = true }
 
 // ws: optional blanks between tokens that cannot merge
 func (g *gg) ws() string {
